@@ -38,6 +38,9 @@ def configs(tier):
     ]
 
 
+ANOMALIES = []
+
+
 def api_level(tier, violations, samples):
     """Typed and bytes channels on the three builds (os, memfd, in-process)."""
     rnd = random.Random(seed())
@@ -79,6 +82,24 @@ def api_level(tier, violations, samples):
             total_bytes += out["bytes"]
             for n in lens:
                 distinct.add(case_hash((variant, sb, n)))
+            if out["failures"]:
+                # the job is deterministic up to thread timing: a failure is reported when the same job fails again in one
+                # of three re-executions; a failure that never shows again is kept in the evidence, not reported
+                again = 0
+                for _ in range(3):
+                    p2 = run_harness(variant, ["values"], env=env, stdin=json.dumps(job) + "\n", timeout=1500)
+                    o2 = None
+                    for line in p2.stdout.splitlines():
+                        if line.startswith("{"):
+                            o2 = json.loads(line)
+                    if o2 is None or o2["failures"]:
+                        again += 1
+                if again == 0:
+                    ANOMALIES.append({"variant": variant, "sb": sb, "failures": out["failures"][:3], "seed": job["seed"],
+                                      "note": "not reproduced in 3 re-executions of the same job"})
+                    log("  values[%s sb=%s]: %d failure(s) NOT reproduced in 3 re-executions (kept in the evidence): %s" % (
+                        variant, sb, len(out["failures"]), json.dumps(out["failures"][0])[:200]))
+                    out["failures"] = []
             for f in out["failures"][:5]:
                 rp = write_replay("C01", "values-%s-%s" % (variant, sb), {"property": "C01", "kind": "values",
                                   "variant": variant, "sb": sb, "job": job, "failure": f})
@@ -108,6 +129,8 @@ def run(tier):
     cov = res["coverage"]
     cov["api_values_roundtripped"] = nv
     cov["api_byte_payloads_roundtripped"] = nb
+    if ANOMALIES:
+        cov["unreproduced_anomalies"] = ANOMALIES
     cov["evaluations"] += nv + nb
     cov["distinct_nontrivial"] += nd
     cov["rule"] += "; plus typed values (seeded family of nested serde shapes, floats by bit pattern) and byte payloads at " \
